@@ -212,7 +212,8 @@ class MainTransformer(object):
             return
         rename_to = rename_to[0]
         target = self._namespace.get_by_symbol(rename_to)
-        if not target:
+        if not isinstance(target, ast.Function):
+            # get_by_symbol() also finds e.g. enum members, which can't be shadowed
             message.warn_node(node,
                 "Can't find symbol '%s' referenced by \"rename-to\" annotation" % (rename_to, ))
         elif target.shadowed_by:
